@@ -1,7 +1,222 @@
 /-
-Helper lemmas (agent model) — see the Props file that imports this module.
+Helper lemmas (agent model) for C18 (transmissions are the unmodified request, addressed as asked):
+where transmissions come from, that the endpoints never change, and the history invariant tying
+every outstanding request to the most recent accepted `send` of its id (`origin`).
 -/
-import StunVerif.Lemmas.AgentMap
+import StunVerif.Lemmas.AgentPeers
 namespace StunVerif.Agent
+
+/-! ### endpoints -/
+
+theorem step_endpoint (s : State) (op : Op) :
+    (step s op).1.transport = s.transport ∧ (step s op).1.localAddr = s.localAddr := by
+  cases op with
+  | sendReq tid b hc to now => rw [step_sendReq]; split <;> exact ⟨rfl, rfl⟩
+  | sendOther b to => exact ⟨rfl, rfl⟩
+  | handle m src =>
+    simp only [step]
+    split
+    · split
+      · exact ⟨rfl, rfl⟩
+      · split
+        · split
+          · split
+            · simp
+            · exact ⟨rfl, rfl⟩
+          · exact ⟨rfl, rfl⟩
+        · simp
+    · simp
+  | poll now pick => exact ⟨agentPoll_transport s now pick, agentPoll_localAddr s now pick⟩
+  | cancel tid => exact ⟨rfl, rfl⟩
+  | cancelRtx tid => exact ⟨rfl, rfl⟩
+  | configure tid rto n last => exact ⟨rfl, rfl⟩
+  | setRemoteCreds k => exact ⟨rfl, rfl⟩
+
+theorem after_endpoint (s : State) (ops : List Op) :
+    (after s ops).transport = s.transport ∧ (after s ops).localAddr = s.localAddr := by
+  induction ops generalizing s with
+  | nil => exact ⟨rfl, rfl⟩
+  | cons op ops ih =>
+    rw [after_cons]
+    exact ⟨(ih _).1.trans (step_endpoint s op).1, (ih _).2.trans (step_endpoint s op).2⟩
+
+/-! ### where transmissions come from -/
+
+theorem step_transmit (s : State) (op : Op) (t : Option Nat) (tx : Transmit)
+    (h : (step s op).2 = .transmit t tx) :
+    (∃ tid b hc to now, op = .sendReq tid b hc to now ∧ lookup s.out tid = none ∧ t = some tid ∧
+      tx = ⟨b, s.transport, s.localAddr, to⟩) ∨
+    (∃ b to, op = .sendOther b to ∧ t = none ∧ tx = ⟨b, s.transport, s.localAddr, to⟩) ∨
+    (∃ now pick tid r, op = .poll now pick ∧ t = some tid ∧ lookup s.out tid = some r ∧
+      tx = ⟨r.bytes, s.transport, s.localAddr, r.to⟩) := by
+  cases op with
+  | sendReq tid b hc to now =>
+    left
+    rw [step_sendReq] at h
+    split at h
+    · cases h
+    · next hn =>
+      cases h
+      refine ⟨tid, b, hc, to, now, rfl, ?_, rfl, rfl⟩
+      cases hl : lookup s.out tid with
+      | none => rfl
+      | some x => rw [hl] at hn; exact absurd rfl hn
+  | sendOther b to =>
+    right; left
+    cases h
+    exact ⟨b, to, rfl, rfl, rfl⟩
+  | handle m src =>
+    exfalso
+    simp only [step] at h
+    split at h
+    · split at h
+      · cases h
+      · split at h
+        · split at h
+          · split at h <;> cases h
+          · cases h
+        · cases h
+    · cases h
+  | poll now pick =>
+    right; right
+    have e : step s (.poll now pick) = agentPoll s now pick := rfl
+    rw [e] at h
+    rcases agentPoll_cases_peers s now pick with ⟨t', hp⟩ | ⟨tid, r, hl, _, hp⟩ | ⟨tid, r, hl, _, hp⟩ |
+      ⟨tid, r, hl, _, hp⟩
+    · rw [hp] at h; cases h
+    · rw [hp] at h
+      cases h
+      refine ⟨now, pick, tid, r, rfl, rfl, hl, ?_⟩
+      simp only [mkTransmit, reqPoll_bytes, reqPoll_to]
+    · rw [hp] at h; cases h
+    · rw [hp] at h; cases h
+  | cancel tid => cases h
+  | cancelRtx tid => cases h
+  | configure tid rto n last => cases h
+  | setRemoteCreds k => cases h
+
+/-! ### traces -/
+
+theorem trace_append (s : State) (ops ops' : List Op) :
+    trace s (ops ++ ops') = trace s ops ++ trace (after s ops) ops' := by
+  induction ops generalizing s with
+  | nil => rfl
+  | cons op ops ih => simp [trace_cons_peers, after_cons, ih]
+
+/-- the `i`-th entry of a trace is the reply of the state after the first `i` calls -/
+theorem trace_getElem? (s : State) (ops : List Op) (i : Nat) (op : Op) (o : Out)
+    (h : (trace s ops)[i]? = some (op, o)) :
+    o = (step (after s (ops.take i)) op).2 ∧
+    (trace s ops).take (i + 1) = trace s (ops.take i) ++ [(op, o)] := by
+  induction ops generalizing s i with
+  | nil => simp [trace_nil_peers] at h
+  | cons op0 ops ih =>
+    rw [trace_cons_peers] at h ⊢
+    cases i with
+    | zero =>
+      simp only [List.getElem?_cons_zero, Option.some.injEq, Prod.mk.injEq] at h
+      obtain ⟨rfl, rfl⟩ := h
+      simp [after_nil, trace_nil_peers]
+    | succ i =>
+      rw [List.getElem?_cons_succ] at h
+      obtain ⟨h1, h2⟩ := ih _ _ h
+      rw [List.take_succ_cons, after_cons, List.take_succ_cons, trace_cons_peers, h2]
+      exact ⟨h1, rfl⟩
+
+/-! ### `origin` -/
+
+/-- what one trace entry contributes to `origin` -/
+def originOne (tid : Nat) (p : Op × Out) : Option (Bytes × SockAddr) :=
+  match p.1, p.2 with
+  | .sendReq t b _ to _, .transmit _ _ => if t = tid then some (b, to) else none
+  | _, _ => none
+
+theorem origin_nil (tid : Nat) : origin tid [] = none := rfl
+
+theorem origin_cons (tid : Nat) (p : Op × Out) (rest : List (Op × Out)) :
+    origin tid (p :: rest) = (origin tid rest).or (originOne tid p) := by
+  rcases p with ⟨op, o⟩
+  cases op <;> cases o <;> simp only [origin, originOne] <;> cases origin tid rest <;> rfl
+
+theorem origin_append (tid : Nat) (A B : List (Op × Out)) :
+    origin tid (A ++ B) = (origin tid B).or (origin tid A) := by
+  induction A with
+  | nil => simp [origin_nil]
+  | cons p A ih => rw [List.cons_append, origin_cons, ih, origin_cons, Option.or_assoc]
+
+theorem origin_snoc (tid : Nat) (T : List (Op × Out)) (p : Op × Out) :
+    origin tid (T ++ [p]) = (originOne tid p).or (origin tid T) := by
+  rw [origin_append, origin_cons, origin_nil, Option.none_or]
+
+/-- an entry contributes only if it is an accepted `send` of that id, which requires the id not to
+    be outstanding -/
+theorem originOne_step_some (s : State) (op : Op) (u : Nat) (x : Bytes × SockAddr)
+    (h : originOne u (op, (step s op).2) = some x) : lookup s.out u = none := by
+  cases op with
+  | sendReq tid b hc to now =>
+    rw [step_sendReq] at h
+    split at h
+    · simp [originOne] at h
+    · next hn =>
+      simp only [originOne] at h
+      split at h
+      · next e =>
+        subst e
+        cases hl : lookup s.out tid with
+        | none => rfl
+        | some x => rw [hl] at hn; exact absurd rfl hn
+      · cases h
+  | _ => simp [originOne] at h
+
+/-! ### the history invariant -/
+
+/-- every outstanding request carries the bytes and destination of the most recent accepted `send`
+    of its id in the trace so far -/
+def OriginInv (s : State) (T : List (Op × Out)) : Prop :=
+  ∀ u r, lookup s.out u = some r → origin u T = some (r.bytes, r.to)
+
+theorem originInv_init (tr : Transport) (loc : SockAddr) : OriginInv (State.init tr loc) [] := by
+  intro u r h
+  simp [State.init] at h
+
+theorem originInv_step {s : State} {T : List (Op × Out)} (hinv : OriginInv s T) (op : Op) :
+    OriginInv (step s op).1 (T ++ [(op, (step s op).2)]) := by
+  intro u r' h
+  rw [origin_snoc]
+  rcases step_lookup_some s op u r' h with ⟨r, hl, hb, hto, _, _⟩ |
+    ⟨hnone, b, hc, to, now, rfl, ho, rfl⟩
+  · cases hone : originOne u (op, (step s op).2) with
+    | some x => rw [originOne_step_some s op u x hone] at hl; cases hl
+    | none => rw [Option.none_or, hinv u r hl, hb, hto]
+  · rw [ho]
+    simp [originOne]
+
+theorem originInv_after {s : State} {T : List (Op × Out)} (hinv : OriginInv s T) (ops : List Op) :
+    OriginInv (after s ops) (T ++ trace s ops) := by
+  induction ops generalizing s T with
+  | nil => simpa [trace_nil_peers, after_nil] using hinv
+  | cons op ops ih =>
+    rw [after_cons, trace_cons_peers]
+    have := ih (originInv_step hinv op)
+    simpa using this
+
+theorem originInv_history (tr : Transport) (loc : SockAddr) (ops : List Op) :
+    OriginInv (after (State.init tr loc) ops) (trace (State.init tr loc) ops) := by
+  simpa using originInv_after (originInv_init tr loc) ops
+
+/-- a transmission for request `tid` carries the bytes and destination of the most recent accepted
+    `send` of `tid`, this call included -/
+theorem originInv_transmit {s : State} {T : List (Op × Out)} (hinv : OriginInv s T) (op : Op)
+    (tid : Nat) (tx : Transmit) (h : (step s op).2 = .transmit (some tid) tx) :
+    ∃ b to, origin tid (T ++ [(op, .transmit (some tid) tx)]) = some (b, to) ∧
+      tx = ⟨b, s.transport, s.localAddr, to⟩ := by
+  rw [origin_snoc]
+  rcases step_transmit s op _ tx h with ⟨tid', b, hc, to, now, rfl, _, ht, rfl⟩ |
+    ⟨b, to, rfl, ht, _⟩ | ⟨now, pick, tid', r, rfl, ht, hl, rfl⟩
+  · cases ht
+    exact ⟨b, to, by simp [originOne], rfl⟩
+  · cases ht
+  · cases ht
+    exact ⟨r.bytes, r.to, by simp [originOne, hinv tid r hl], rfl⟩
 
 end StunVerif.Agent
